@@ -251,6 +251,12 @@ func (s *Service) Process(ctx context.Context, msg interface{}, ctl *core.Contro
 
 	if err = s.store.WriteState(ctx, s.crewName, mss); err != nil {
 		log.Printf("Service.Process warning for '%s' failed WriteState: %s", s.crewName, err)
+		// The machines stay as they were, so nothing happened:
+		// in particular, nothing was emitted.  (Passing on what
+		// the abandoned walks emitted would change the crew -
+		// other machines, timers - on behalf of an operation
+		// that failed, and again when the client tries again.)
+		return processed, err
 	} else {
 		for mid, state := range states {
 			c.Machines[mid].State = state
